@@ -3,9 +3,10 @@
 -/
 import Bita.Model.Planner
 import Bita.Spec.InPlace
+import Bita.Proofs.PlannerTrees
 
 namespace Bita.Proofs
-open Bita Bita.Spec
+open Bita Bita.Spec Bita.Proofs.Planner
 
 variable {κ : Type} [DecidableEq κ]
 
@@ -13,6 +14,47 @@ theorem planner_sound (content : κ → Bytes) (O N : List κ)
     (hne : ∀ k, k ∈ O ∨ k ∈ N → content k ≠ []) :
     safePlan content O N
       (reorderOps (indexOf content O) ((indexOf content O).strip (indexOf content N)).1) = true := by
-  sorry
+  have hO : ∀ k ∈ O, content k ≠ [] := fun k hk => hne k (Or.inl hk)
+  have hN : ∀ k ∈ N, content k ≠ [] := fun k hk => hne k (Or.inr hk)
+  rw [reorderOps_eq]
+  obtain ⟨hJ, -, hall⟩ := J_fold hO hN
+    (chunksOf (indexOf content O) ((indexOf content O).strip (indexOf content N)).1)
+    (fun c hc => hc) _ J_init
+  generalize (chunksOf (indexOf content O) ((indexOf content O).strip (indexOf content N)).1).foldl
+    (treeStep (indexOf content O) ((indexOf content O).strip (indexOf content N)).1
+      (dfsFuel ((indexOf content O).strip (indexOf content N)).1
+        (layout0Of (indexOf content O) ((indexOf content O).strip (indexOf content N)).1)))
+    ([], [], layout0Of (indexOf content O) ((indexOf content O).strip (indexOf content N)).1) = acc
+    at hJ hall
+  obtain ⟨ops, processed, lay⟩ := acc
+  have hvalid := hJ.valid
+  have hproc := hJ.proc
+  have hnd := hJ.nd
+  have hord := hJ.ord
+  simp only at hvalid hproc hnd hord hall ⊢
+  unfold safePlan
+  simp only [Bool.and_eq_true]
+  refine ⟨⟨⟨?_, ?_⟩, ?_⟩, ?_⟩
+  · rw [List.all_eq_true]
+    intro op hop
+    obtain ⟨k, hk, h⟩ := hvalid op hop
+    have hkS : k ∈ movS content O N := (mem_movS content O N k).mpr hk
+    have hfo := firstOff_fo hO hk.1
+    rcases h with rfl | rfl
+    · simp only [mkStore, entryOf]
+      simp only [movS] at hkS
+      simp [hkS, hfo, fo]
+    · simp only [mkCopy, entryOf, destsOf_tgt hO hN]
+      simp only [movS] at hkS
+      simp [hkS, hfo, fo]
+  · exact decide_eq_true hnd
+  · rw [List.all_eq_true]
+    intro k hk
+    have hkM : Mov content O N k := (mem_movS content O N k).mp hk
+    have hc := (mem_chunks hO hN _).mpr ⟨k, hkM, rfl⟩
+    have := hall _ hc
+    simp only [mkChild, entryOf] at this
+    simpa using (hproc k).mp this
+  · exact hord
 
 end Bita.Proofs
